@@ -22,9 +22,10 @@ import (
 
 // ---------- declarations ----------
 type body struct {
-	kind byte // G get plain symbol, S set plain symbol, D dot path read
-	name string
-	path []string
+	kind  byte // G get plain symbol, S set plain symbol, D dot path read, W dot path write, C call through a dot path
+	name  string
+	path  []string
+	cargs []int64
 }
 type decl struct {
 	kind   byte // I int, F function, H hash, P package, R reference to an existing value
@@ -40,12 +41,14 @@ type member struct {
 	d    *decl
 }
 type op struct {
-	kind  byte   // g get, s set, c call
-	route string // concrete syntax route
-	path  []string
-	z     int64
-	args  []int64
-	tmp   string // fresh variable of the rhs routes (not part of the model input)
+	kind   byte   // g get, s set, c call
+	route  string // concrete syntax route
+	path   []string
+	z      int64
+	args   []int64
+	tmp    string // fresh variable of the rhs routes / name of the wrapper function (not part of the model input)
+	param  string // 'v': the calling function's parameter ...
+	argsym string // ... bound to the value of this global
 }
 
 var tmpCounter int
@@ -69,9 +72,16 @@ func (bd body) enc(b *strings.Builder) {
 	switch bd.kind {
 	case 'G', 'S':
 		fmt.Fprintf(b, " %c %s", bd.kind, bd.name)
-	case 'D':
-		b.WriteString(" D")
+	case 'D', 'W':
+		fmt.Fprintf(b, " %c", bd.kind)
 		names(b, bd.path)
+	case 'C':
+		b.WriteString(" C")
+		names(b, bd.path)
+		fmt.Fprintf(b, " %d", len(bd.cargs))
+		for _, a := range bd.cargs {
+			fmt.Fprintf(b, " %d", a)
+		}
 	}
 }
 func (bd body) src(params []string) string {
@@ -80,6 +90,14 @@ func (bd body) src(params []string) string {
 		return bd.name
 	case 'S':
 		return "(set " + bd.name + " " + params[0] + ")"
+	case 'W':
+		return "(set " + strings.Join(bd.path, ".") + " " + params[0] + ")"
+	case 'C':
+		s := "(" + strings.Join(bd.path, ".")
+		for _, a := range bd.cargs {
+			s += fmt.Sprintf(" %d", a)
+		}
+		return s + ")"
 	}
 	return "(let [tq " + strings.Join(bd.path, ".") + "] tq)"
 }
@@ -158,8 +176,12 @@ func (o op) enc(b *strings.Builder) {
 		b.WriteString(" s full")
 		names(b, o.path)
 		fmt.Fprintf(b, " %d", o.z)
-	case 'c':
-		b.WriteString(" c")
+	case 'c', 'v':
+		if o.kind == 'v' {
+			b.WriteString(" v " + o.param + " " + o.argsym)
+		} else {
+			b.WriteString(" c")
+		}
 		names(b, o.path)
 		fmt.Fprintf(b, " %d", len(o.args))
 		for _, a := range o.args {
@@ -200,6 +222,13 @@ func (o op) src() []string {
 			s += fmt.Sprintf(" %d", a)
 		}
 		return []string{s + ")"}
+	case 'v':
+		// the call is made by a function whose parameter carries the outsider's value
+		s := "(" + p
+		for _, a := range o.args {
+			s += fmt.Sprintf(" %d", a)
+		}
+		return []string{"(defn wr" + o.tmp + " [" + o.param + "] " + s + "))", "(wr" + o.tmp + " " + o.argsym + ")"}
 	}
 	panic("bad op route " + o.route)
 }
@@ -350,6 +379,10 @@ func firstRunes(w *world, ops []op, set map[rune]bool) {
 	for _, o := range ops {
 		for _, p := range o.path {
 			add(p)
+		}
+		if o.kind == 'v' {
+			add(o.param)
+			add(o.argsym)
 		}
 	}
 }
@@ -664,6 +697,75 @@ func systematic(out *lib.Out, depth int, rng *lib.Rng, setFraction int, reads bo
 	}
 }
 
+// ---------- name collisions between the caller's side and members reached from inside ----------
+// A package whose functions reach its own (private or public) hash / nested package through a dot
+// path -- read, write, call -- while the caller's side binds the SAME head name: a global defined
+// before or after the package, and/or a parameter of the function that makes the call.
+func collisions(out *lib.Out, rng *lib.Rng, all bool) {
+	heads := []string{"cfg", "Cfg", "_cfg", "éa"}
+	inners := []string{"inner", "Inner", "_in", "ωm"}
+	k := 0
+	for hi, hd := range heads {
+		for _, glob := range []string{"none", "before", "after"} {
+			for _, via := range []bool{false, true} {
+				k++
+				if !all && (k+int(rng.Intn(3)))%2 == 0 && !(glob == "after" && hi == 0) {
+					continue
+				}
+				in := inners[(hi+k)%len(inners)]
+				pk := dP("pk",
+					m(hd, dH(m("a", dI(11)), m("B", dI(12)), m("n", dH(m("D", dI(13)))))),
+					m(in, dP("pin", m("Level", dI(21)), m("low", dI(22)),
+						m("Bump", dF([]string{"v"}, body{kind: 'S', name: "Level"})),
+						m("GetLow", dF(nil, body{kind: 'G', name: "low"})))),
+					m("GetA", dF(nil, body{kind: 'D', path: []string{hd, "a"}})),
+					m("GetD", dF(nil, body{kind: 'D', path: []string{hd, "n", "D"}})),
+					m("SetB", dF([]string{"v"}, body{kind: 'W', path: []string{hd, "B"}})),
+					m("GetB", dF(nil, body{kind: 'D', path: []string{hd, "B"}})),
+					m("GetLevel", dF(nil, body{kind: 'D', path: []string{in, "Level"}})),
+					m("GetLow", dF(nil, body{kind: 'D', path: []string{in, "low"}})),
+					m("SetLevel", dF([]string{"v"}, body{kind: 'W', path: []string{in, "Level"}})),
+					m("SetLow", dF([]string{"v"}, body{kind: 'W', path: []string{in, "low"}})),
+					m("DoBump", dF(nil, body{kind: 'C', path: []string{in, "Bump"}, cargs: []int64{31}})),
+					m("CallLow", dF(nil, body{kind: 'C', path: []string{in, "GetLow"}})),
+				)
+				// the outsider's look-alikes
+				oh := dH(m("a", dI(91)), m("B", dI(92)), m("n", dH(m("D", dI(93)))))
+				op2 := dP("pout", m("Level", dI(81)), m("low", dI(82)),
+					m("Bump", dF([]string{"v"}, body{kind: 'S', name: "Level"})),
+					m("GetLow", dF(nil, body{kind: 'G', name: "low"})))
+				w := &world{}
+				w.defs = append(w.defs, m("oh", oh), m("opk", op2))
+				if glob == "before" {
+					w.defs = append(w.defs, m(hd, dR("oh")), m(in, dR("opk")))
+				}
+				w.defs = append(w.defs, m("pk", pk))
+				if glob == "after" {
+					w.defs = append(w.defs, m(hd, dR("oh")), m(in, dR("opk")))
+				}
+				call := func(fn string, param, argsym string, args ...int64) op {
+					if via {
+						return op{kind: 'v', route: "call-via", path: []string{"pk", fn}, args: args, param: param, argsym: argsym}
+					}
+					return op{kind: 'c', route: "call", path: []string{"pk", fn}, args: args}
+				}
+				seqs := [][]op{
+					{call("GetA", hd, "oh"), call("GetD", hd, "oh"), call("SetB", hd, "oh", 41), call("GetB", hd, "oh"),
+						{kind: 'g', route: "let", path: []string{"oh", "B"}}, {kind: 'g', route: "rhsdef", path: []string{"oh"}}},
+					{call("GetLevel", in, "opk"), call("GetLow", in, "opk"), call("SetLevel", in, "opk", 42), call("GetLevel", in, "opk"),
+						call("SetLow", in, "opk", 43), {kind: 'g', route: "let", path: []string{"opk", "Level"}},
+						{kind: 'c', route: "call", path: []string{"opk", "GetLow"}}},
+					{call("DoBump", in, "opk"), call("GetLevel", in, "opk"), call("CallLow", in, "opk"),
+						{kind: 'g', route: "let", path: []string{"opk", "Level"}}, {kind: 'g', route: "let", path: []string{"pk", in, "Level"}}},
+				}
+				for _, ops := range seqs {
+					runCase(out, w, nil, ops, "collision", "glob:"+glob, fmt.Sprintf("via:%v", via), "head:"+classOf(hd))
+				}
+			}
+		}
+	}
+}
+
 // ---------- random worlds ----------
 var poolU = []string{"Pub", "A", "B", "Q", "Éa", "Ωm", "Vi", "Z9"}
 var poolL = []string{"priv", "a", "b", "q", "éa", "ωm", "vi", "z9"}
@@ -735,11 +837,15 @@ func randPkg(rng *lib.Rng, level, maxDepth int, visible []string, globals []stri
 			if len(vis) > 0 && rng.Intn(5) != 0 {
 				tgt = vis[rng.Intn(len(vis))]
 			}
-			switch rng.Intn(4) {
+			switch rng.Intn(6) {
 			case 0:
 				ms = append(ms, m(k, dF([]string{"v"}, body{kind: 'S', name: tgt})))
 			case 1:
 				ms = append(ms, m(k, dF(nil, body{kind: 'D', path: []string{tgt, pick(rng)}})))
+			case 4:
+				ms = append(ms, m(k, dF([]string{"v"}, body{kind: 'W', path: []string{tgt, pick(rng)}})))
+			case 5:
+				ms = append(ms, m(k, dF(nil, body{kind: 'C', path: []string{tgt, pick(rng)}})))
 			default:
 				ms = append(ms, m(k, dF(nil, body{kind: 'G', name: tgt})))
 			}
@@ -859,6 +965,32 @@ func randomWorlds(out *lib.Out, rng *lib.Rng, n, maxDepth int) {
 		if rng.Intn(2) == 0 {
 			w.defs = append(w.defs, m("hx", randHash(rng, 0, globals)))
 		}
+		// a global defined AFTER the packages under the name of one of their members (the member must
+		// keep shadowing it for code inside the package)
+		var memberNames []string
+		for _, d := range w.defs {
+			if d.d.kind == 'P' {
+				for _, kv := range d.d.kvs {
+					memberNames = append(memberNames, kv.name)
+				}
+			}
+		}
+		if len(memberNames) > 0 && rng.Intn(3) == 0 {
+			nm := memberNames[rng.Intn(len(memberNames))]
+			taken := false
+			for _, d := range w.defs {
+				if d.name == nm {
+					taken = true
+				}
+			}
+			if !taken {
+				if rng.Intn(2) == 0 {
+					w.defs = append(w.defs, m(nm, randHash(rng, 0, nil)))
+				} else {
+					w.defs = append(w.defs, m(nm, dR(globals[rng.Intn(len(globals))])))
+				}
+			}
+		}
 		nops := 2 + rng.Intn(5)
 		var ops []op
 		for k := 0; k < nops; k++ {
@@ -870,7 +1002,12 @@ func randomWorlds(out *lib.Out, rng *lib.Rng, n, maxDepth int) {
 				for range d.params {
 					args = append(args, int64(rng.Intn(50)+5000))
 				}
-				ops = append(ops, op{kind: 'c', route: "call", path: p, args: args})
+				if len(memberNames) > 0 && rng.Intn(3) == 0 {
+					ops = append(ops, op{kind: 'v', route: "call-via", path: p, args: args,
+						param: memberNames[rng.Intn(len(memberNames))], argsym: w.defs[rng.Intn(len(w.defs))].name})
+				} else {
+					ops = append(ops, op{kind: 'c', route: "call", path: p, args: args})
+				}
 			case x < 3:
 				ops = append(ops, op{kind: 's', route: setRoutes[rng.Intn(len(setRoutes))], path: p, z: int64(rng.Intn(50) + 7000)})
 				ops = append(ops, op{kind: 'g', route: "let", path: p})
@@ -910,6 +1047,8 @@ func main() {
 	systematic(out, depth-1, rng, frac2, false, true)
 	systematic(out, depth, rng, frac, false, true)
 	fmt.Fprintln(os.Stderr, "systematic sets", time.Since(t0))
+	collisions(out, rng, a.Tier == "thorough")
+	fmt.Fprintln(os.Stderr, "collisions", time.Since(t0))
 	randomWorlds(out, rng, nrand, depth)
 	fmt.Fprintln(os.Stderr, "random", time.Since(t0))
 	out.Extra["nesting_depth"] = depth
